@@ -226,8 +226,10 @@ def matchPat (p : Pat) (v : Val) (env : Env) : Option (Option Env) :=
     if t = t' then (if args.length = fs.length then some (some (bindAll args fs env)) else none)
     else some none
   | .ctor _ _, _ => none
-  | .record _ poly fields _, .data _ fs names =>
-    (bindFields poly fields fs names env).map some
+  | .record nfields poly fields _, .data _ fs names =>
+    -- a value of a closed record type has exactly the fields of the type
+    if poly = false ∧ fs.length ≠ nfields then none
+    else (bindFields poly fields fs names env).map some
   | .record _ _ _ _, _ => none
   | .ident x, v => some (some ((x, v) :: env))
   | .lit l, v => (litMatches l v).map fun b => if b then some env else none
